@@ -36,6 +36,7 @@ func main() {
 	}
 	switch os.Args[1] {
 	case "run":
+		os.RemoveAll(filepath.Join(verifDir, "replays", propArg(os.Args[2:])))
 		os.Exit(cmdRun(os.Args[2:]))
 	case "replay":
 		os.Exit(cmdReplay(os.Args[2:]))
@@ -401,3 +402,17 @@ func (e *evidence) write(path string) error {
 }
 
 func round3(f float64) float64 { return float64(int64(f*1000+0.5)) / 1000 }
+
+func propArg(args []string) string {
+	for i, a := range args {
+		if a == "--prop" || a == "-prop" {
+			if i+1 < len(args) {
+				return sanitize(args[i+1])
+			}
+		}
+		if strings.HasPrefix(a, "--prop=") {
+			return sanitize(strings.TrimPrefix(a, "--prop="))
+		}
+	}
+	return "_none"
+}
